@@ -275,6 +275,12 @@ func c11FixedCases() []fxCase {
 				}
 				return ""
 			}},
+		{id: "F9-external-declaration", what: "External(EAA0, MethodObj, 2) followed by Device(DAA0){Name(NAA0, One)} and a method: the declaration's two raw bytes must not disturb what follows",
+			tables: [][]byte{fxCat(
+				fxCat(c11OpBytes(pOpExternal), fxNS("", "EAA0"), []byte{8, 2}),
+				fxDev(fxNS("", "DAA0"), fxName(fxNS("", "NAA0"), fxOne...)),
+				fxMethod(fxNS("", "MAA1"), 0, []byte{byte(pOpReturn)}, fxNS("", "NAA0")))},
+			check: fxWant("\\DAA0", "\\DAA0.NAA0", "\\MAA1")},
 		{id: "K10-indexfield-answers-to-index-unit-name", what: "a reference to the field unit used as index of an IndexField resolves to the IndexField declaration, which carries that name",
 			tables: [][]byte{fxCat(
 				fxCat(c11OpBytes(pOpOpRegion), fxNS("", "RAA0"), []byte{0, 0x0a, 0, 0x0a, 0x10}),
